@@ -311,6 +311,11 @@ fn scenario(cfg: &Cfg, track: bool) -> Out {
             problems.push(("no-refresh-in-window".into(), format!("minute {minute}: no find_node(own id) was sent in the last 16 minutes")));
         }
     }
+    // what the public API reports at the end of the timeline (Info, to_bootstrap) must be the
+    // observer's state
+    for (k, d) in w.api_view_mismatches(obs) {
+        problems.push((k, format!("end of the timeline: {d}")));
+    }
     let refreshes = {
         let mut v = self_lookups.clone();
         v.sort();
